@@ -102,7 +102,30 @@ def main():
 
     if args.replay:
         case = json.load(open(args.replay if os.path.isabs(args.replay) else os.path.join(lib.ROOT, args.replay)))
-        return mod.replay(ctx, case)
+        rc = 0
+        if not case.get("no_failing_input_found"):
+            try:
+                rc = mod.replay(ctx, case)
+            except Exception:  # noqa
+                traceback.print_exc()
+                rc = 0
+        if rc == 0 and "seed" in case and not os.environ.get("PV_REPLAY_NO_RERUN"):
+            # the recorded input alone does not fail: the violation depended on the history of the run (a cache, shared
+            # state, an operation sequence) or no single input was found.  The run is deterministic in (seed, tier):
+            # re-run it (without rebuilding the proofs unless they were what broke).
+            print("replay: recorded input alone does not reproduce; re-running the check with seed=%s tier=%s" % (
+                case["seed"], case.get("tier", "quick")))
+            env = dict(os.environ, VERIF_SEED=str(case["seed"]), PV_EVIDENCE_DIR=os.path.join(lib.ROOT, "replays", "_rerun_evidence"),
+                       PV_REPLAY_DIR=os.path.join(lib.ROOT, "replays", "_rerun"))
+            cmd = [sys.executable, os.path.abspath(__file__), pid, "--tier", case.get("tier", "quick")]
+            if not case.get("no_failing_input_found"):
+                cmd.append("--no-build")
+            import subprocess
+            p = subprocess.run(cmd, env=env, stdout=subprocess.PIPE, stderr=subprocess.STDOUT)
+            out = p.stdout.decode(errors="replace")
+            print(out[-1500:])
+            rc = 1 if p.returncode == 1 else 0
+        return rc
 
     props_file = os.path.join(lib.LEAN, "PV", "Props", pid + ".lean")
     props_module = "PV.Props." + pid
@@ -121,18 +144,22 @@ def main():
             if not ok_d:
                 ctx.driver_ok = False
                 ctx.tie_broken("build-driver", log_d[-1500:])
-            ok_p, log_p = lib.lake_build(mod.LEAN_TARGETS)
+            equiv = getattr(mod, "EQUIV", {})     # T-C: {module: [theorem names]} generated kernel = model
+            ok_p, log_p = lib.lake_build(list(mod.LEAN_TARGETS) + sorted(equiv))
         except Exception as e:  # noqa
             print("infrastructure failure: %s" % e)
             return 2
         ctx.obligations = lib.theorems_of(props_file)
+        equiv_names = {m: ["%s.%s" % (m, n) for n in names] for m, names in equiv.items()}
+        for m in sorted(equiv_names):
+            ctx.obligations += equiv_names[m]
         failed = []
         if not ok_p:
             errs = [l for l in log_p.split("\n") if "error" in l][:12]
             ctx.tie_broken("build-proofs", "\n".join(errs) or log_p[-1500:])
         # C audit
         if ok_p:
-            res = stage(ctx, "audit", lambda: lib.audit_axioms(props_module, ctx.obligations))
+            res = stage(ctx, "audit", lambda: lib.audit_axioms([props_module] + sorted(equiv), ctx.obligations))
             if res:
                 axioms, out = res
                 ctx.axioms = axioms
@@ -146,7 +173,10 @@ def main():
                         ctx.discharged.append(n)
                 if failed:
                     ctx.tie_broken("audit", "; ".join(failed))
-            deps = sorted(lib.lean_deps(props_module))
+            deps = set(lib.lean_deps(props_module))
+            for m in equiv:
+                deps |= lib.lean_deps(m)
+            deps = sorted(deps)
             hits = lib.forbidden_tokens(deps)
             if hits:
                 ctx.tie_broken("audit-grep", "; ".join(hits[:10]))
@@ -202,13 +232,13 @@ def main():
         v0 = new[0]
         path = write_replay(ctx, "violation", {
             "property": pid, "kind": v0["kind"], "site": v0["site"], "input": v0["case"], "observed": v0["observed"],
-            "required": v0["required"], "more": new[1:6], "ties_broken": ctx.ties_broken[:5],
+            "required": v0["required"], "more": new[1:6], "ties_broken": ctx.ties_broken[:5], "seed": seed, "tier": args.tier,
             "replay_cmd": "./check %s --replay <this file>" % pid})
         print("VIOLATION property=%s replay=%s" % (pid, path))
         rc = 1
     elif ctx.ties_broken:
         path = write_replay(ctx, "tie", {
-            "property": pid, "no_failing_input_found": True,
+            "property": pid, "no_failing_input_found": True, "seed": seed, "tier": args.tier,
             "broken": ctx.ties_broken[:8],
             "first_disagreements": ctx.disagreements[:5],
             "theorems_registered": ctx.obligations, "theorems_discharged": ctx.discharged,
